@@ -270,7 +270,7 @@ def check_file(case, cc):
     cc.sample(L.summary(case, model))
     recs, tables = model['records'], model['tables']
     # ---- route A: record by record
-    with File.FileRead(io.BytesIO(data)) as fr:
+    with File.FileRead(engine.handle(data)) as fr:
         flds = list(fr.iter_logical_records())
     if len(flds) != len(recs) or any(
             (bool(f.lr_is_eflr), f.lr_type, bool(f.lr_is_encrypted)) != (r['eflr'], r['lr_type'], r['encrypted']) or
@@ -289,7 +289,7 @@ def check_file(case, cc):
         report_table(cc, t, compare_table(t, eflr), 'record')
     # ---- route B: the logical index
     try:
-        with LogicalFile.LogicalIndex(io.BytesIO(data)) as index:
+        with LogicalFile.LogicalIndex(engine.handle(data)) as index:
             compare_index(cc, model, index)
             cc.cls('index-route-compared')
     except engine.HarnessError:
